@@ -78,6 +78,9 @@ def as_v(ev, x):
             return App("dictcomp", (Tup(loops), Tup(its), as_v(ev, k), as_v(ev, v)))
         return App("dict", [Tup([k, as_v(ev, v)]) for k, v in x.items.items()])
     if isinstance(x, Obj):
+        if getattr(x, "nt_fields", None) is not None:
+            # a typing.NamedTuple instance used as a VALUE (np.stack(interval), np.asarray(point)) is the tuple of its field values
+            return Tup([as_v(ev, x.attrs[f]) for f in x.nt_fields])
         return Sym(x.key, ("object",))
     return Sym(getattr(x, "key", repr(x)))
 
@@ -631,6 +634,14 @@ def np_call(ev, name, args, kwargs, node):
             return disj(list(x0.items)) if name == "any" else conj(list(x0.items))
     if name in ("abs", "absolute", "fabs"):
         return mk_app("abs", [as_v(ev, arg(0))])
+    if name == "trace" and A:
+        # trace over two axes = sum of the diagonal over those axes (offset 0)
+        off = kwargs.get("offset", arg(1) if len(A) > 1 else None)
+        if off is None or (isinstance(off, Const) and off.value == 0):
+            a1 = kwargs.get("axis1", arg(2) if len(A) > 2 else Const(0))
+            a2 = kwargs.get("axis2", arg(3) if len(A) > 3 else Const(1))
+            d = np_call(ev, "diagonal", [A[0]], {"axis1": a1, "axis2": a2}, node)
+            return np_call(ev, "sum", [d], {"axis": Const(-1)}, node)
     if name == "square":
         x0 = as_v(ev, arg(0))
         return ev.int_product(mul(x0, x0), x0, x0, node)
